@@ -1,0 +1,10 @@
+//go:build verif
+
+package compaction
+
+import "github.com/KevoDB/kevo/pkg/compaction"
+
+// VerifCoordinator returns the wrapped coordinator. Only compiled with -tags verif (verification tooling).
+func (m *Manager) VerifCoordinator() compaction.CompactionCoordinator {
+	return m.coordinator
+}
